@@ -74,7 +74,9 @@ def oracle(case, stats):
         stats.count("skipped:reference-budget")
         return
     s = mf.atoms_from(case["spos"], case["sels"], case["cell"])
-    p = mf.atoms_from(case["ppos"], case["pels"])
+    # a pattern may carry a cell of its own (cut out with structure[indices], loaded from a LAMMPS or CIF file)
+    p = mf.atoms_from(case["ppos"], case["pels"], case["cell"] if case.get("pattern_cell") else None)
+    stats.count("pattern-carries-cell:%s" % bool(case.get("pattern_cell")))
     if case.get("prime") is not None:
         # an earlier search, in the same process, of the same crystal described in another frame (whole crystal turned by
         # an axis-aligned rotation: same cell lengths and angles, another cell matrix) - nothing of it may leak into the
@@ -83,8 +85,10 @@ def oracle(case, stats):
         s0 = mf.atoms_from((np.array(case["spos"]) @ R.T).tolist(), case["sels"], (np.array(case["cell"]) @ R.T).tolist())
         mf.find(s0, p, atol, hints, seeds, positions=True, what="priming-search")
         stats.count("primed-by-rotated-crystal")
-    idx, pos, rots = mf.find(s, p, atol, hints, seeds, positions=True)
-    idx2 = mf.find(s, p, atol, hints, seeds, positions=False)
+    form = case.get("call", "keyword")
+    idx, pos, rots = mf.find(s, p, atol, hints, seeds, positions=True, form=form)
+    idx2 = mf.find(s, p, atol, hints, seeds, positions=False, form=form)
+    stats.count("call:" + form)
     if [tuple(int(x) for x in m) for m in idx] != [tuple(int(x) for x in m) for m in idx2]:
         raise Violation("forms-disagree", "index lists differ between the two return forms with identical RNG state: "
                         "%r vs %r" % (idx, idx2))
@@ -117,6 +121,8 @@ def classify_case(case, nmatches, stats, nt=None):
 def primed_case(draw):
     """a planted case, one time in four preceded by a search of the same crystal in a turned frame"""
     case = draw(gen_geom.planted())
+    case["call"] = draw(st.sampled_from(["keyword", "keyword", "keyword", "positional"]))
+    case["pattern_cell"] = draw(hperm.integers(0, 3)) == 0
     case["prime"] = draw(st.one_of(st.none(), st.none(), st.none(), st.sampled_from([1, 2, 3, 5, 8, 13, 17, 22])))
     return case
 
